@@ -98,7 +98,7 @@ def io_images(draw):
 def signal_cases(draw):
     d = D(draw)
     return {'kind': 'signal', 'w': d.choice([16, 32, 64]), 'P': d.choice([3, 5, 8, 13]), 'delay_ms': d.int(0, 300),
-            'engine': d.choice(['native', 'native', 'fast', 'featured']), 'last_len': d.choice([None, None, 4]),
+            'engine': d.choice(['native', 'native', 'fast', 'featured']), 'last_len': d.choice([None, 4, 10, 4]),
             'no_flat': d.pct() < 25}
 
 
@@ -255,7 +255,14 @@ def run_signal_case(case):
             except OSError:
                 pass
     if not rpath.exists():
-        raise env.HarnessError('signal worker died: %s' % err.decode('latin-1')[-1500:])
+        tail = err.decode('latin-1')[-1500:]
+        import signal as _signal
+        if proc.returncode is not None and proc.returncode < 0 and proc.returncode != -_signal.SIGINT:
+            return Violation('c18:signal:%s:process-killed-by-signal-%d' % (case['engine'], -proc.returncode), {'stderr': tail[-400:]}, cl)
+        if proc.returncode == -_signal.SIGINT or 'KeyboardInterrupt' in tail:
+            # the interrupt reached the worker outside the guarded run (interpreter start-up / shutdown, an import)
+            return Discard('inconclusive: signal landed outside the run')
+        raise env.HarnessError('signal worker died (rc=%s): %s' % (proc.returncode, tail))
     res = json.loads(rpath.read_text())
     os.unlink(rpath)
     if res['verdict'] == 'violation':
@@ -344,9 +351,17 @@ def _run_signal_case(case):
             return Violation('c18:python-loops:sigint-lands-mid-op', {'engine': case['engine'], 'ops': N, 'next_op': nxt}, cl)
         return Violation('c18:signal:%s:memory-not-after-N-ops' % case['engine'], {'ops': N, 'got': got_bits, 'expected': exp_bits}, cl)
     if case['last_len'] and o.last_ops is not None:
-        seq = [0] + [(1 + (j % P)) * 2 * w for j in range(max(0, N - 1 + 1))]
-        # executed ips are op0, then ring ops; the op about to run when interrupted may be registered too
-        pass
+        # executed ips: op0, then the ring (slots 2..P+1).  The list must be the tail of the executed sequence; the op that was
+        # about to run when the signal was honoured may already be registered (the python loops register before executing)
+        L = case['last_len']
+
+        def ip_of(k):
+            return 0 if k == 0 else (2 + (k - 1) % P) * 2 * w
+        tails = [[ip_of(k) for k in range(max(0, n - L), n)] for n in (N, N + 1)]
+        if list(o.last_ops) not in tails:
+            return Violation('c18:signal:%s:last-ops-not-the-tail-of-the-executed-ops' % case['engine'],
+                             {'ops': N, 'got': list(o.last_ops), 'expected_one_of': tails, 'ring_ops': P}, cl)
+        cl.append('last-ops on signal checked')
     cl.append('interrupted after N ops, memory exact')
     return Ok(cl, True, sample={'signal_case': case, 'ops_at_interrupt': N})
 
